@@ -314,6 +314,12 @@ def set_order_dependence(index, files):
                     p = getattr(n, "_parent", None)
                     if isinstance(p, ast.Call) and (dotted(p.func) or "") in ORDER_FREE_CONSUMERS:
                         continue
+                    # kept in a local that only order-free consumers read (`t = list(s); sorted(t)`)
+                    if isinstance(p, ast.Assign) and len(p.targets) == 1 and isinstance(p.targets[0], ast.Name) and len(assigns.get(p.targets[0].id, [])) == 1:
+                        uses = [u for u in nodes if isinstance(u, ast.Name) and u.id == p.targets[0].id and isinstance(u.ctx, ast.Load)]
+                        if uses and all(isinstance(getattr(u, "_parent", None), ast.Call) and (dotted(u._parent.func) or "") in ORDER_FREE_CONSUMERS
+                                        for u in uses):
+                            continue
                     out.append((rel, n, f"`{norm_src(n)[:60]}` turns a set into an ordered sequence"))
                 if isinstance(n, ast.Call) and isinstance(n.func, ast.Attribute) and n.func.attr in ("pop", "join") and (
                         (n.func.attr == "pop" and not n.args and _is_set_valued(n.func.value, local_sets)) or
